@@ -18,9 +18,9 @@ EVEN_FUNCS = [
     "amu2LFSfapprox", "amu2LFSfapprox_non_tan_beta_resummed", "tan_alpha",
 ]
 # contributions whose invariance rests on the eigen-solver's conventions: reported, not decided
-NOT_DECIDED = ["amu2LaSferm", "amu2LaCha"]
+NOT_DECIDED = []
 # exact contributions that read the neutralino / chargino / smuon mixing matrices: decided by covariance (P2-P4)
-MIXING_FUNCS = ["amu1LChi0", "amu1LChipm", "amu2LChi0Photonic", "amu2LChipmPhotonic"]
+MIXING_FUNCS = ["amu1LChi0", "amu1LChipm", "amu2LChi0Photonic", "amu2LChipmPhotonic", "amu2LaSferm", "amu2LaCha"]
 
 # loop functions stay opaque; Iabc is opened one level (it squares its arguments: Iabc(a,b,c) = Ixyz(a^2,b^2,c^2)),
 # so its evenness in each argument is derived, not assumed
@@ -38,8 +38,8 @@ def run(F, R, tier):
         "violations. Contributions that read a mixing matrix are listed as not decided.")
     R.assumptions = ["masses (eigenvalues) are invariant under the flip; only mixing matrices are treated as unknown",
                      "loop functions are called with the arguments shown (even in each argument where they square them)"]
-    R.undecided = ["2L(a) contributions (%s): they read the stop / sbottom / stau and Higgs mixing; not folded" % ", ".join(NOT_DECIDED),
-                   "exactly degenerate masses, where the decomposition leaves a rotation (not only row phases) open"]
+    R.undecided = ["exactly degenerate masses, where the decomposition leaves a rotation (not only row phases) open",
+                   "the CP-even Higgs mixing enters 2L(a) through the closed-form tan(alpha) (decided even by P1), not through ZH"]
     R.rule("P1", "contribution is even under the joint sign flip", len(EVEN_FUNCS) - 2)
     E = Evaluator(F, inline=lambda n, g: not LOOPFN.match(n), max_depth=14)
     n_done = 0
@@ -92,16 +92,27 @@ def _covariance(F, R):
     from .rules_c20 import _reduce_roots
 
     def zero(p):
+        if p.is_zero():
+            return True
         for _ in range(6):
             p = _reduce_roots(p)
+            if p.is_zero():
+                return True
         return p.is_zero()
+
+    def same(a, b):
+        """a == b as rational functions; the common case of an untouched denominator is decided on the numerators alone"""
+        if a.d == b.d:
+            return zero(a.n - b.n)
+        return zero(a.n * b.d - b.n * a.d)
 
     # -- P2: the mass matrices transform covariantly under the flip -----------------------------------------------------
     R.rule("P2", "under the joint sign flip the mass matrices transform covariantly: M_chi0 -> (iS) M_chi0 (iS), S = diag(1,1,-1,-1); "
                  "X_cha -> (i s) X (i s), s = diag(1,-1); M^2_smuon -> t M^2 t, t = diag(1,-1); m^2_sneutrino invariant "
-                 "(entry-wise polynomial identities of the code's mass-matrix functions)", 4)
+                 "(entry-wise polynomial identities of the code's mass-matrix functions); likewise stop, sbottom, stau", 7)
     E4 = Evaluator(F, inline=lambda n, g: True, max_depth=8)
-    SECT = {"Chi": ([1, 1, -1, -1], -1), "Cha": ([1, -1], -1), "Sm": ([1, -1], 1), "SvmL": ([1], 1)}
+    SECT = {"Chi": ([1, 1, -1, -1], -1), "Cha": ([1, -1], -1), "Sm": ([1, -1], 1), "SvmL": ([1], 1),
+            "St": ([1, -1], 1), "Sb": ([1, -1], 1), "Stau": ([1, -1], 1)}
     for nm, (sg, overall) in SECT.items():
         try:
             f, v = code_value(F, E4, "get_mass_matrix_" + nm)
@@ -121,14 +132,15 @@ def _covariance(F, R):
             R.soft_broken("P2 %s: %s" % (nm, str(ex)[:120]))
 
     # -- P3 / P4: the formulas ----------------------------------------------------------------------------------------------------
-    R.rule("P3", "exact one-loop and photonic two-loop contributions are invariant under the substitution the covariance induces on the "
-                 "decomposition outputs (ZN -> ZN iS, UM -> UM is, UP -> UP is, ZM -> ZM t; masses and the resummed Yukawa unchanged)", 4)
+    R.rule("P3", "exact one-loop, photonic two-loop and 2L(a) contributions are invariant under the substitution the covariance induces on the "
+                 "decomposition outputs (ZN -> ZN iS, UM -> UM is, UP -> UP is, ZM, ZT, ZB, ZTau -> Z t; explicit mu, A_f negated; masses and the resummed Yukawa couplings unchanged)", 6)
     R.rule("P4", "... and do not depend on the row phases the decomposition contracts leave open (ZN -> diag(+-1) ZN, ZM -> diag(+-1) ZM, "
-                 "UM -> Phi UM together with UP -> Phi^* UP): the result is a function of the model, not of the eigen-solver's conventions", 4)
+                 "UM -> Phi UM together with UP -> Phi^* UP): the result is a function of the model, not of the eigen-solver's conventions", 6)
     only = lambda rn: rn.startswith("gm2calc::MSSMNoFV")
+    LOOP6 = re.compile(r"^gm2calc::(F1C|F2C|F1N|F2N|F3C|F4C|F3N|F4N|f_PS|f_S|f_sferm)$")
     I = Poly.atom(IMAG)
 
-    def mix_atoms(p):
+    def mix_atoms0(p):
         out = {}
         for a in p.atoms():
             conj = False
@@ -137,12 +149,13 @@ def _covariance(F, R):
                 conj, b = True, b[1]
             if isinstance(b, tuple) and b and b[0] == "cplx":
                 b = b[1]
-            if isinstance(b, tuple) and b and b[0] == "elem" and b[1][0] == "field" and b[1][2] in ("ZN", "UM", "UP", "ZM") \
+            if isinstance(b, tuple) and b and b[0] == "elem" and b[1][0] == "field" and b[1][2] in ("ZN", "UM", "UP", "ZM", "ZT", "ZB", "ZTau") \
                     and all(x[0] == "num" for x in b[2:]):
                 out[a] = (b[1][2], tuple(int(x[1]) for x in b[2:]), conj)
         return out
 
-    def substitute(r, fn):
+    def substitute(r, fn, mix_atoms=None):
+        mix_atoms = mix_atoms or mix_atoms0
         atoms = {}
         atoms.update(mix_atoms(r.n))
         atoms.update(mix_atoms(r.d))
@@ -151,7 +164,35 @@ def _covariance(F, R):
             k = fn(mat, idx, conj)
             if k is not None:
                 mp[a] = Poly.atom(a) * k
-        return Rat(r.n.subs(mp), r.d.subs(mp)) if mp else r
+        return Rat(scale_atoms(r.n, mp), scale_atoms(r.d, mp)) if mp else r
+
+    def scale_atoms(p, mp):
+        """p with every atom a replaced by a * k(a), k a single-term polynomial (sign, power of i, phase atom): done
+        monomial by monomial"""
+        from .poly import _mulmono
+        fac = {}
+        for a, q in mp.items():
+            (m1, c1), = q.t.items()
+            fac[a] = (m1, c1)
+        out = {}
+        for m, c in p.t.items():
+            mono, coef = (), c
+            for a, e in m:
+                if a in fac:
+                    m1, c1 = fac[a]
+                    for _ in range(e):
+                        mono, k = _mulmono(mono, m1)
+                        coef = coef * c1 * k
+                else:
+                    mono, k = _mulmono(mono, ((a, e),))
+                    coef = coef * k
+            if coef != 0:
+                v = out.get(mono, 0) + coef
+                if v == 0:
+                    out.pop(mono, None)
+                else:
+                    out[mono] = v
+        return Poly(out)
 
     def induced(mat, idx, conj):
         s4, s2 = [1, 1, -1, -1], [1, -1]
@@ -159,7 +200,7 @@ def _covariance(F, R):
             return I.scale(-s4[idx[1]] if conj else s4[idx[1]])
         if mat in ("UM", "UP"):
             return I.scale(-s2[idx[1]] if conj else s2[idx[1]])
-        if mat == "ZM":
+        if mat in ("ZM", "ZT", "ZB", "ZTau"):
             return Poly.const(s2[idx[1]])
         return None
 
@@ -178,24 +219,51 @@ def _covariance(F, R):
 
     for nm in MIXING_FUNCS:
         try:
-            f, s, ft = _fold(F, "gm2calc::" + nm, ("sym", "model"), only)
+            f, s, ft = _fold(F, "gm2calc::" + nm, ("sym", "model"), only, loop=LOOP6)
             alg = CAlg(_is_complex_factory(ft))
             r = alg.rat(s)
         except (NotPolynomial, Undecided, AnalysisBroken) as ex:
             R.soft_broken("P3 %s: %s" % (nm, str(ex)[:140]))
             continue
+        # intern the atoms (deeply nested tuples with Fractions hash slowly): ('a', n) stands for the n-th atom
+        table, meta, fl = {}, {}, set()
+        mix_atoms = mix_atoms0
+        for a in sorted(r.n.atoms() | r.d.atoms(), key=repr):
+            if isinstance(a, tuple) and a and a[0] == "sqrtQ":
+                continue
+            table[a] = ("a", len(table))
+        meta.update({table[a]: v for a, v in mix_atoms(r.n).items()})
+        meta.update({table[a]: v for a, v in mix_atoms(r.d).items()})
+        for a, ia in table.items():
+            b = a
+            while isinstance(b, tuple) and b and b[0] in ("elem", "cplx", "cbar"):
+                b = b[1]
+            if isinstance(b, tuple) and b and b[0] == "field" and b[2] in FLIPPED_FIELDS:
+                fl.add(ia)
+
+        def interned(p):
+            out = {}
+            for m, c in p.t.items():
+                mono = tuple(sorted(((table.get(a, a), e) for a, e in m), key=lambda y: repr(y[0])))
+                out[mono] = out.get(mono, 0) + c
+            return Poly({m: c for m, c in out.items() if c != 0})
+        r = Rat(interned(r.n), interned(r.d))
+        mix_atoms = lambda p, meta=meta: {a: meta[a] for a in p.atoms() if a in meta}
+        flip = lambda p, fl=fl: scale_atoms(p, {a: -Poly.atom(a) for a in p.atoms() if a in fl})
         used = sorted({v[0] for v in list(mix_atoms(r.n).values()) + list(mix_atoms(r.d).values())})
-        r2 = substitute(Rat(_flip_params(r.n), _flip_params(r.d)), induced)      # explicit parameters flip as well
-        ok = zero(r2.n * r.d - r.n * r2.d)
+        r2 = substitute(Rat(flip(r.n), flip(r.d)), induced, mix_atoms)      # explicit parameters flip as well
+        ok = same(r2, r)
         R.check("P3", ok, "%s (reads %s)" % (nm, ", ".join(used)), F.loc(f),
                 "%s changes under ZN -> ZN iS, UM/UP -> UM/UP is, ZM -> ZM t, i.e. under the joint sign flip of (mu, M1, M2, A_mu): a sign or "
                 "a complex conjugation is inconsistent between the couplings" % nm, key="P3|" + nm)
         # residual freedom of the contracts
         bad = None
-        for mat, rows in (("ZN", 4), ("ZM", 2)):
+        for mat, rows in (("ZN", 4), ("ZM", 2), ("ZT", 2), ("ZB", 2), ("ZTau", 2)):
+            if mat not in used:
+                continue
             for i in range(rows):
-                r3 = substitute(r, lambda m_, idx, cj, mat=mat, i=i: Poly.const(-1) if (m_ == mat and idx[0] == i) else None)
-                if not zero(r3.n * r.d - r.n * r3.d):
+                r3 = substitute(r, lambda m_, idx, cj, mat=mat, i=i: Poly.const(-1) if (m_ == mat and idx[0] == i) else None, mix_atoms)
+                if not same(r3, r):
                     bad = "the sign of row %d of %s" % (i, mat)
                     break
             if bad:
@@ -209,8 +277,8 @@ def _covariance(F, R):
                         return None
                     fwd = (m_ == "UM") != cj          # UM -> phi UM, conj(UM) -> phibar conj(UM); UP -> phibar UP, conj(UP) -> phi conj(UP)
                     return Poly.atom(ph if fwd else phb)
-                r3 = substitute(r, phase)
-                res = cancel_pairs(r3.n * r.d - r.n * r3.d, ph, phb)
+                r3 = substitute(r, phase, mix_atoms)
+                res = cancel_pairs(r3.n - r.n, ph, phb) if r3.d == r.d else cancel_pairs(r3.n * r.d - r.n * r3.d, ph, phb)
                 if not zero(res):
                     bad = "the phase of row %d of (UM, UP)" % k
                     break
